@@ -103,6 +103,10 @@ class Decider:
         r = self._regex_call(test, env)
         if r is not None:
             return r
+        if isinstance(test, ast.Name) and test.id == self.seq:
+            # truth of a bytes value is `len(value) > 0`
+            self.ev._note("L", 0)
+            return env["L"] > 0
         if isinstance(test, ast.Compare) and len(test.ops) == 1 and isinstance(test.comparators[0], ast.Constant) and test.comparators[0].value is None:
             r = self._regex_call(test.left, env)
             if r is not None:
@@ -365,8 +369,14 @@ def r2(repo, chk, ref):
         c = cs[0]
         hdr = get_kw(c, "headers", 0)
         chk.ob("R2", f"{wname}: passes its own header list", hdr is not None and norm(hdr) == w.node.args.args[0].arg, f"first argument {norm(hdr) if hdr is not None else None}", w.loc(c))
-        allowed = _fold_bytes_set(repo, m, get_kw(c, "allowed_pseudo_headers", 1))
-        required = _fold_bytes_set(repo, m, get_kw(c, "required_pseudo_headers", 2))
+        def _arg(e):
+            # a set bound once to a local of the wrapper is read through
+            if isinstance(e, ast.Name) and not w.is_param(e.id) and len(w.local_defs(e.id)) == 1:
+                return w.local_defs(e.id)[0]
+            return e
+
+        allowed = _fold_bytes_set(repo, m, _arg(get_kw(c, "allowed_pseudo_headers", 1)))
+        required = _fold_bytes_set(repo, m, _arg(get_kw(c, "required_pseudo_headers", 2)))
         spec = ref["pseudo_headers"][kind]
         if allowed is None or required is None:
             raise AnalysisError(f"{wname}: pseudo-header sets are not constant")
@@ -492,16 +502,15 @@ def r4(repo, chk):
     chk.ob("R4", "validate_headers: a negative or non-numeric content-length raises MessageError", ok, "int() conversion / sign check not converted to MessageError", vh.loc(vh.node))
 
     chkfn = Fn(repo, f"{H3}:H3Connection._check_content_length")
-    rs = [r for r in chkfn.raises("MessageError") if any("stream.content_length != stream.expected_content_length" in a[0] and a[1] for a in chkfn.lexical_guards(r))]
-    ok = bool(rs)
-    for r in rs:
-        lg = chkfn.lexical_guards(r)
-        extra = [a for a in lg if "content_length" not in a[0]]
-        ok = ok and not extra
+    # the function is loop-free and does nothing else, so the dominating atoms of the raise are its exact condition
+    # (nested form, merged form and early-return form all give the same two atoms)
+    want = {natom("stream.content_length != stream.expected_content_length"), natom("stream.expected_content_length is not None")}
+    rs = chkfn.raises("MessageError")
+    ok = len(rs) == 1 and set(chkfn.guard_atoms(rs[0])) | set(chkfn.lexical_guards(rs[0], expand=False)) == want and not chkfn.stmts(lambda x: isinstance(x, (ast.For, ast.While, ast.Try)))
     chk.ob("R4", "_check_content_length raises MessageError when the counted body differs from the declared length", ok, "comparison no longer guards the raise (or has extra conditions)", chkfn.loc(chkfn.node))
     for r in rs:
-        lg = set(chkfn.lexical_guards(r, expand=False))
-        chk.ob("R4", "_check_content_length: the only other condition is that a length was declared", lg == {("stream.expected_content_length is not None", True), ("stream.content_length != stream.expected_content_length", True)}, f"guards {sorted(lg)}", chkfn.loc(r))
+        lg = set(chkfn.lexical_guards(r, expand=False)) | set(chkfn.guard_atoms(r))
+        chk.ob("R4", "_check_content_length: the only other condition is that a length was declared", lg == want, f"guards {sorted(lg)}", chkfn.loc(r))
     # header-block position on the stream: first block = message headers, second = trailers, a third is refused
     hp = Fn(repo, f"{H3}:H3Connection._handle_request_or_push_frame")
     sets = {norm(v): hp.lexical_guards(st, expand=False) for st, t, v in hp.assigns(chain="stream.headers_recv_state")}
